@@ -265,9 +265,25 @@ fn run(ops: &[MOp]) -> Result<(Vec<Fail>, u64, u64, u64), String> {
     check_cf(&eg, AstSize, "AstSize", &rec, &mut fails, &mut evals, &mut goals);
     check_cf(&eg, DepthWeighted, "DepthWeighted", &rec, &mut fails, &mut evals, &mut goals);
     check_cf(&eg, Weighted, "Weighted", &rec, &mut fails, &mut evals, &mut goals);
-    // the convenience entry points
+    // the convenience entry points, on the identity invocation and on a renamed one
+    let conv_pool = [Slot::numeric(1), Slot::named("q"), Slot::numeric(0), Slot::numeric(300)];
+    let mut conv_queries: Vec<(Id, AppliedId)> = Vec::new();
     for i in eg.ids() {
-        let a = eg.mk_identity_applied_id(i);
+        let ident = eg.mk_identity_applied_id(i);
+        let sl: Vec<Slot> = ident.slots().iter().copied().collect();
+        conv_queries.push((i, ident.clone()));
+        if !sl.is_empty() && sl.len() <= conv_pool.len() {
+            let m: SlotMap = sl.iter().copied().zip(conv_pool.iter().copied()).collect();
+            conv_queries.push((i, ident.apply_slotmap(&m)));
+            if sl.len() >= 2 {
+                let mut rot = sl.clone();
+                rot.rotate_left(1);
+                let m: SlotMap = sl.iter().copied().zip(rot.into_iter()).collect();
+                conv_queries.push((i, ident.apply_slotmap(&m)));
+            }
+        }
+    }
+    for (i, a) in conv_queries {
         evals += 1;
         match catch(|| (ast_size_extract(&a, &eg), extract::<Sym, (), Weighted>(&a, &eg))) {
             Err(site) => fails.push(("extract-panic".into(), format!("extract()/ast_size_extract() panicked: {site}"), format!("class {i:?}"))),
@@ -275,7 +291,7 @@ fn run(ops: &[MOp]) -> Result<(Vec<Fail>, u64, u64, u64), String> {
                 for t in [t1, t2] {
                     match lookup_rec_expr(&t, &eg) {
                         Some(l) if eg.eq(&l, &a) => {}
-                        other => fails.push(("not-in-class".into(), format!("extract() result not represented in class {i:?}"), format!("{t} -> {other:?}"))),
+                        other => fails.push(("not-in-class".into(), format!("extract()/ast_size_extract() result not represented in the queried invocation {a:?}"), format!("{t} -> {other:?}"))),
                     }
                 }
             }
@@ -306,7 +322,7 @@ impl Prop for ExtractProp {
         vec!["cyclic_class", "class_whose_node_has_redundant_slot", "symmetric_class"]
     }
     fn rule(&self) -> String {
-        "Every ordered sequence of the stated length over union/insert operations plus four rewrite-iteration operations (one of them with patterns that repeat a slot) is executed; on the resulting e-graph, for the cost functions AstSize, depth-weighted size (1+2*sum) and a per-operator weighted size: Extractor::new, then for every live class the identity invocation and every injective renaming of its arguments into a 4-slot pool (numeric, textual, $0), every permutation of the class's own parameter names and a shift along them: extract returns, the result looks up to an invocation eq to the query, cost_rec(result) == get_best_cost == Bellman-Ford least fixpoint over eg.enodes, every free slot of the result is a query argument or a fresh slot above the pre-call watermark; also for every stale handle and through extract()/ast_size_extract(). Non-trivial = execution that did not abort.".into()
+        "Every ordered sequence of the stated length over union/insert operations plus four rewrite-iteration operations (one of them with patterns that repeat a slot) is executed; on the resulting e-graph, for the cost functions AstSize, depth-weighted size (1+2*sum) and a per-operator weighted size: Extractor::new, then for every live class the identity invocation and every injective renaming of its arguments into a 4-slot pool (numeric, textual, $0), every permutation of the class's own parameter names and a shift along them: extract returns, the result looks up to an invocation eq to the query, cost_rec(result) == get_best_cost == Bellman-Ford least fixpoint over eg.enodes, every free slot of the result is a query argument or a fresh slot above the pre-call watermark; also for every stale handle and through extract()/ast_size_extract() (identity, renamed and rotated invocations). Non-trivial = execution that did not abort.".into()
     }
     fn assumptions(&self) -> Vec<String> {
         vec!["histories that panic before extraction are reported as a no-answer failure (the same defect is also reported by C08 where its exploration reaches it)".into(), "cost functions are strictly monotone with u64 costs".into()]
